@@ -4,7 +4,7 @@ import RxProofs.Lemmas.SubjInv
 # Invariants of the ReplaySubject machine (`RxModel/SubjReplay.lean`)
 -/
 
-namespace Replay
+namespace SubjReplay
 open Subj (Action Call upd disposedExn upd_apply)
 variable {α : Type}
 
@@ -541,4 +541,4 @@ theorem reach_inv {cfg : Cfg} {calls : List (Nat × Call α)} {st : St α} (h : 
   | init => exact init_inv cfg calls
   | step _ ih => exact step_inv cfg ih
 
-end Replay
+end SubjReplay
